@@ -1,7 +1,8 @@
 import TensorModel.Ext.Hooks
+import TensorModel.Ext.MinMax
 /-! Registry of operation families (one import + one list entry per family). -/
 namespace TM
 
-def families : List Family := []
+def families : List Family := [minMaxFamily]
 
 end TM
